@@ -461,7 +461,7 @@ package hermes
 // C01  adaptive sub-daily time stepping in the day loop of Run: the sub-steps of a day add up to exactly one day
 // (ghost wsum accumulates the step length handed to Water), every call of Water gets a legal step.
 //@ region HermesSession.Run$1#substeps from "FSCS := 0.0" to "for SUBD := 1; SUBD <= int(STEPS); SUBD++ {"
-//@   serves C01
+//@   serves C01, C11
 //@   opaque Soiltemp PhytoOut Nitro
 //@   ghost var wsum real
 //@   ghost var ncalls int
@@ -489,6 +489,7 @@ package hermes
 //@   invariant sum: wsum == pre(wsum) + real(\i-1)*WDT
 //@   invariant calls: ncalls == pre(ncalls) + \i - 1
 //@   invariant frame: g.N == pre(g.N) && g.DZ.Num == 10 && g.DT.Num == 1 && g.OUTN == pre(g.OUTN) && g.DRAIFAK == pre(g.DRAIFAK)
+//@   decreases[C11] nsteps - \i + 1
 
 // ---------------------------------------------------------------------------
 // C02 / C07  nitrogen transport of one sub-step (convection-dispersion, uptake, leaching)
@@ -1310,3 +1311,120 @@ package hermes
 //@   invariant begin: g.BEGINN == pre(g.BEGINN)
 //@   invariant step: g.DT.Index == 1
 //@   invariant range: g.BEGINN <= \i
+
+// ---------------------------------------------------------------------------
+// C11  termination and per-run failure reporting (sequential part; isolation across concurrent runs is outside)
+// Day-length search of the fertiliser forecast: both searches end at any latitude. The day-length function is
+// periodic in the day of year, so the search is bounded by one year; the measure is the number of days left.
+// CalculateDayLenght is used through its (trusted) range contract only: the proof holds for ANY day-length values.
+//@ func LangTagConverter$1
+//@   serves C11
+//@   opaque extractDate
+//@   ghost var day1 int
+//@   ghost var day2 int
+//@   after stmt "if P1 == 0 {": ghost day1 = P1
+//@   after stmt "if P2 == 0 {": ghost day2 = P2
+//@   ensures first: 0 <= day1 && day1 <= 365
+//@   ensures second: 0 <= day2 && day2 <= 366
+//@ loop LangTagConverter$1#1
+//@   invariant range: 0 <= TAG && TAG <= 365 && (ok ==> TAG < 365)
+//@   invariant longest: 0 <= longestDay && longestDay <= TAG
+//@   invariant found: 0 <= P1 && P1 <= TAG
+//@   decreases 366 - TAG
+//@ loop LangTagConverter$1#2
+//@   invariant range: 0 <= TAG && TAG <= 366 && (TAG > 365 ==> !ok)
+//@   invariant longest: 0 <= longestDay && longestDay <= 366
+//@   invariant found: 0 <= P2 && P2 <= TAG
+//@   decreases 367 - TAG
+
+// Every call of Run reports exactly one result for its own log id, and the success flag says whether the run body
+// returned an error; a failed run is reported on the log channel, never by aborting the process (when a log channel exists).
+//@ region HermesSession.Run#epilogue from "result := &RunReturn{" to "if out != nil {"
+//@   serves C11
+//@   ghost var sent int = 0
+//@   ghost var sentLog int = 0
+//@   ghost var sentID string
+//@   ghost var sentOK bool
+//@   after stmt "out <- result": ghost sent = sent + 1
+//@   after stmt "out <- result": ghost sentID = result.LogID
+//@   after stmt "out <- result": ghost sentOK = result.Success
+//@   after stmt "logout <- result.String()": ghost sentLog = sentLog + 1
+//@   safety[C11] nofatal
+//@   requires logchan: !isnil(logout)
+//@   ensures one: sent == ite(!isnil(out), 1, 0)
+//@   ensures own: !isnil(out) ==> sentID == logID
+//@   ensures flag: !isnil(out) ==> iff(sentOK, isnil(returnedWithErr))
+//@   ensures logged: sentLog == ite(isnil(returnedWithErr), 0, 1)
+
+// Reported error classes end the run with an error, they never abort the process and never let the run continue.
+// soil texture not in the parameter table: Input only goes on when every horizon's texture is one of the table's
+//@ region Input#texturecheck from "for horizon := 0; horizon < currentSoil.AZHO; horizon++ {" to "for horizon := 0; horizon < currentSoil.AZHO; horizon++ {"
+//@   serves C11
+//@   safety[C11] nofatal
+//@   ensures listed: forall(h, 0, currentSoil.AZHO, exists(t, 0, len(l.ValidSoilTexture), currentSoil.BART[h] == l.ValidSoilTexture[t]))
+//@ loop Input@"for horizon := 0; horizon < currentSoil.AZHO; horizon++ {"
+//@   invariant range: 0 <= \i
+//@   invariant done: forall(h, 0, \i, exists(t, 0, len(l.ValidSoilTexture), currentSoil.BART[h] == l.ValidSoilTexture[t]))
+//@ loop Input@"for iTex := 0; iTex < len(l.ValidSoilTexture); iTex++ {"
+//@   invariant range: 0 <= \i && \i <= len(l.ValidSoilTexture)
+//@   invariant none: !textureExists && forall(t, 0, \i, currentSoil.BART[horizon] != l.ValidSoilTexture[t])
+
+// texture of the deepest horizon not in the capillary-rise table: Hydro returns an error for this run
+// (reading past the end of the table must not abort the whole batch process)
+//@ region Hydro#parcap from "if horizon == g.AZHO {" to "if horizon == g.AZHO {"
+//@   serves C11
+//@   safety[C11] nofatal
+//@   ensures done: true
+
+// Helpers that abort the process only for failures OUTSIDE the error classes the model reports per run
+// (assumptions, listed in the evidence wherever a no-abort proof relies on them):
+//@ func HermesSession.Open
+//@   serves C11
+//@   trusted
+//@   aborts-only a parameter or input file of the project cannot be opened or read (environment failure, not a reported input error class)
+//@ func ValAsFloat
+//@   serves C11
+//@   trusted
+//@   aborts-only a numeric field of a parameter table is not a number (malformed table, not a reported input error class)
+
+// inconsistent texture fractions (pedotransfer route): Input only goes on with fractions that add up to 100 % (+-3)
+// and are all present; every rejection returns a non-nil error
+//@ region Input#fractions from "soilSum := l.TON[lindex] + l.SLUF[lindex] + l.SSAND[lindex]" to "if l.SSAND[lindex] == 0 {"
+//@   serves C11
+//@   safety[C11] nofatal
+//@   ensures consistent: 97 <= l.TON[lindex] + l.SLUF[lindex] + l.SSAND[lindex] && l.TON[lindex] + l.SLUF[lindex] + l.SSAND[lindex] <= 103
+//@   ensures present: l.TON[lindex] != 0 && l.SLUF[lindex] != 0 && l.SSAND[lindex] != 0
+//@   return-ensures error: !isnil(result0)
+
+// tillage between sowing and harvest: Nitro only goes on when the next tillage date is not inside the growing
+// period of the current crop; otherwise it returns a non-nil error (which Run returns, see Run$1#nitroerr)
+//@ region Nitro#tillagedate from "if g.SAAT[g.AKF.Index] > 0 && g.EINTE[g.NTIL.Index+1] > g.SAAT[g.AKF.Index]" to "if g.SAAT[g.AKF.Index] > 0 && g.EINTE[g.NTIL.Index+1] > g.SAAT[g.AKF.Index]"
+//@   serves C11
+//@   opaque KalenderConverter$1
+//@   ensures outside: !(g.SAAT[g.AKF.Index] > 0 && g.EINTE[g.NTIL.Index+1] > g.SAAT[g.AKF.Index] && g.EINTE[g.NTIL.Index+1] <= g.ERNTE[g.AKF.Index])
+//@   return-ensures error: !isnil(result1)
+
+// start year not matching the first harvest: the day loop only goes on when the calendar year of the first day
+// is the year the weather was loaded for; otherwise the run ends with a non-nil error
+//@ region HermesSession.Run$1#startyear from "if ZEIT == g.BEGINN {" to "if ZEIT == g.BEGINN {"
+//@   serves C11
+//@   safety[C11] nofatal
+//@   requires domain: 1 <= ZEIT && ZEIT <= 72684
+//@   ensures matches: ZEIT == g.BEGINN ==> exists(m, 1, 13, exists(d, 1, 32, validDate(1900 + g.J, m, d) && daynumber(1900 + g.J, m, d) == ZEIT))
+//@   return-ensures error: !isnil(result0)
+
+// errors of the input and nitrogen modules end the run with that error (the run never continues after one)
+//@ region HermesSession.Run$1#inputerr from "errSoil := Input(&herInputVars, &g, &herPath, &driConfig, SOID, gwId)" to "if errSoil != nil {"
+//@   serves C11
+//@   opaque Input
+//@   ghost var failed bool = false
+//@   after call Input: ghost failed = !isnil(res0)
+//@   ensures stops: !failed
+//@   return-ensures error: !isnil(result0)
+//@ region HermesSession.Run$1#nitroerr from "finished, err := Nitro(WDT, SUBD, ZEIT, &g, &nitroSharedVars, &nitroSharedBBBVars, &herPath, &cropOut)" to "if err != nil {"
+//@   serves C11
+//@   opaque Nitro
+//@   ghost var failed bool = false
+//@   after call Nitro: ghost failed = !isnil(res1)
+//@   ensures stops: !failed
+//@   return-ensures error: !isnil(result0)
